@@ -1468,6 +1468,10 @@ func (t *itype) comparable() bool {
 }
 
 func (t *itype) assignableTo(o *itype) bool {
+	if isInterface(o) && t.needsPtrFor(o) {
+		return false
+	}
+
 	if t.equals(o) {
 		return true
 	}
@@ -2307,7 +2311,37 @@ func (t *itype) implements(it *itype) bool {
 		}
 		return t.TypeOf().Implements(it.TypeOf())
 	}
-	return t.methods().contains(it.methods())
+	return t.methods().contains(it.methods()) && !t.needsPtrFor(it)
+}
+
+// needsPtrFor returns true if a method of interface it is declared with a pointer receiver
+// and is not in the method set of the non pointer type t (it is in the method set of *t only).
+func (t *itype) needsPtrFor(it *itype) bool {
+	if isBin(t) || isInterface(t) || t.isNil() || t.TypeOf().Kind() == reflect.Ptr {
+		return false
+	}
+	for name := range it.methods() {
+		m, index := t.lookupMethod(name)
+		if m == nil || m.kind != funcDecl || len(m.child[0].child) == 0 || m.child[0].child[0].lastChild().kind != starExpr {
+			continue
+		}
+		// The method has a pointer receiver: it must be promoted through an embedded pointer.
+		promoted := false
+		for ft := t; len(index) > 0 && !promoted; index = index[1:] {
+			for ft.cat == linkedT {
+				ft = ft.val
+			}
+			if index[0] >= len(ft.field) {
+				return false
+			}
+			ft = ft.field[index[0]].typ
+			promoted = ft.cat == ptrT
+		}
+		if !promoted {
+			return true
+		}
+	}
+	return false
 }
 
 // defaultType returns the default type of an untyped type.
